@@ -181,7 +181,7 @@ def checkLanding (segs : List SegX) (q ans : String) : Except String (List Strin
     match f32OfTok propS, rcS.toNat?, f32OfTok landS, f32OfTok totalS with
     | some (.fin prop), some rc, some land, some (.fin total) =>
       let totalMs := (segs.map (·.durMs)).sum
-      if total ≠ Sb.Traj.secF32 totalMs then .error s!"landing: total duration {ratToString total}" else
+      if absR (total - Sb.Traj.secExact totalMs) > Sb.Traj.secExact totalMs / 4194304 then .error s!"landing: total duration {ratToString total}" else
       -- start + 1.0 * duration may exceed (start_ms + duration_ms)/1000 by a rounding step
       if prop < 0 ∨ prop > total + timeSlack total then .error s!"landing: result {ratToString prop} outside [0, {ratToString total}]" else
       let screened : Bool := match pd, thr with
